@@ -182,8 +182,12 @@ def nontrivial(c, o):
 	return None
 
 
-LEVEL_TEXT = ('Coq model of the whole incremental parse loop (start line, incremental header parsing, Content-Length / chunked / trailer framing, hooks in their '
-	'real order) with sub-parsers as parameters; machine-checked lemmas that incremental parsing equals whole-buffer parsing (header blocks: hparse_app; ...), '
-	'tied to /repo by T1 tables and by comparing every parse() call of every generated fragmentation with the model inside Coq. Partial: see DESIGN.md C01.')
-LEVEL_NOTE = 'Trusted: Coq kernel + vm_compute, T1/T2/T3 harness, the callees listed as parameters; findings D13 (411 peek) and D14 (LF mode) are excluded by hypothesis and kept as known findings.'
+LEVEL_TEXT = ('Machine-checked Coq theorems about a Gallina model of the whole incremental parse loop (start line, line-wise header parsing, Content-Length / chunked / trailer framing, hooks in '
+	'their real order; sub-parsers are parameters, every theorem holds for every instantiation): (A) the reference machine (the three buffer-dependent shortcuts off) gives the same '
+	'messages, first error and final state for EVERY fragmentation of every stream, equal to one call on the whole stream; (B) the line-wise (eager) header parsing is simulated by it, '
+	'up to the timing of a 400 inside a truncated header section (finding D34); (C) the machine as implemented equals the eager one on every run in which neither the bare-LF fallback nor '
+	'the 411 peek fires, and that condition is DISCHARGED for the client machine on every stream the reference machine parses completely into messages with LF-free start lines, and for the '
+	'server machine when in addition the header hook of the run accepts framed header sections only; witnesses refute the unrestricted statement (D13, D14, D34). '
+	'Tied to /repo by T1 tables and by comparing every parse() call of every generated fragmentation with the model inside Coq.')
+LEVEL_NOTE = 'Trusted: Coq kernel + vm_compute, T1/T2/T3 harness, the callees listed as parameters. Known findings D13 (411 peek), D14 (LF mode), D34 (truncated-header error timing) are the exact complement of the proved statements.'
 TECHNIQUE = 'Coq proof (induction over octet lists / fragment lists) on a Gallina parser model + in-Coq correspondence with recorded callee tables'
